@@ -5,6 +5,7 @@ package client
 
 import (
 	"github.com/openconfig/gnmi/client"
+	"github.com/openconfig/gnmi/path"
 	zz "github.com/openconfig/gnmi/zzverif"
 
 	gpb "github.com/openconfig/gnmi/proto/gnmi"
@@ -107,4 +108,37 @@ func VerifC12_ClientRecv(h *zz.H) {
 	// a second message on the same stream
 	err = c.defaultRecv(resp)
 	_ = err
+}
+
+// VerifC19_QueryRoundTrip (C19 e): a client query made of plain elements reaches the server
+// indexed as the same elements: pathToString + ygot.StringToPath + path.ToStrings on symbolic
+// byte strings (ASCII, <= B bytes per element).
+func VerifC19_QueryRoundTrip(h *zz.H) {
+	n := h.Range("elements", 1, h.Param("E", 2))
+	var q client.Path
+	for i := 0; i < n; i++ {
+		e := h.Bytes("elem", h.Param("B", 2))
+		h.Assume(e != "")
+		for k := 0; k < len(e); k++ {
+			c := e[k]
+			// "plain": none of the path syntax characters
+			h.Assume(c != '[' && c != ']' && c != '\\' && c != ' ')
+		}
+		q = append(q, e)
+	}
+	last := q[n-1]
+	h.Known("D17-last-query-element-ends-in-slash", last[len(last)-1] == '/', "reaches the server indexed")
+	req, err := subscribe(client.Query{Target: "t", Type: client.Once, Queries: []client.Path{q}})
+	h.Assert(err == nil, "C19: a query made of plain elements is accepted")
+	if err != nil {
+		return
+	}
+	got := path.ToStrings(req.GetSubscribe().Subscription[0].Path, false)
+	ok := len(got) == len(q)
+	if ok {
+		for i := range q {
+			ok = zz.And(ok, got[i] == q[i])
+		}
+	}
+	h.Assert(ok, "C19: a client query made of plain elements (which may contain '/') reaches the server indexed as the same elements")
 }
